@@ -195,6 +195,33 @@ def rule_e(F):
                       "after the swap the only fallible step is re-insertion (%d site), which cannot allocate because capacity was just raised (assumption)" % len(late)))
     else:
         res.append(bad("C12.E", "C12/E/adjust_capacity/no-other-failure-after-mutation", f.loc(late[0][0]), "a fallible step other than re-insertion follows the mutation of the map"))
+    # insert_with_hint: an insert that reports a failure has not inserted - every error exit lies before the first store
+    # into the slot arrays / the count (callers such as CaoLangTable::insert keep their own key list in step with the
+    # reported outcome)
+    g = T.fn("insert_with_hint")
+    gcfg = g.cfg
+    stores = set()
+    for bi, b in enumerate(g.blocks):
+        for st in b["stmts"]:
+            if st["k"] == "assign" and st["place"]["p"] and st["place"]["p"][-1]["k"] in ("index", "deref", "field"):
+                names = mu.field_path(st["place"])
+                if (st["place"]["l"] == 1 and names[-1:] == ["count"]) or st["place"]["p"][-1]["k"] == "index":
+                    stores.add(bi)
+    for bi, t in mu.calls(g):
+        if any(n.endswith("ptr::write") or n.endswith("ptr::mut_ptr::write") or n.endswith("copy_nonoverlapping") for n in callee_names(t["func"])):
+            stores.add(bi)
+    errs = [bi for bi, t in mu.calls(g) if any(x.endswith("from_residual") for x in callee_names(t["func"])) and t["dest"]["l"] == 0]
+    if not stores:
+        raise AnchorMissing("stores in CaoHashMap::insert_with_hint")
+    key = "C12/E/insert_with_hint/failure-before-any-store"
+    late2 = [e for e in errs if any(e in gcfg.reachable_from(sb) for sb in stores)]
+    if late2:
+        res.append(bad("C12.E", key, g.loc(g.blocks[late2[0]]["term"].get("ln")),
+                       "insert_with_hint can return an error after it has stored the entry (the growth follows the store): the caller is "
+                       "told the insert failed while the key is in the map - CaoLangTable then skips its key list, the key is found by get "
+                       "but invisible to len, iteration and pop"))
+    else:
+        res.append(ok("C12.E", key, g.loc(), "all %d error exit(s) precede the first store" % len(errs)))
     return res
 
 
@@ -236,5 +263,5 @@ RULES = [
     Rule("C12.G", rule_g, 2, "load-factor guard on every insertion path"),
     Rule("C12.Z", rule_z, 1, "reserved hash value mapped away"),
     Rule("C12.B", rule_b, 4, "removal back-shifts and empties the final hole"),
-    Rule("C12.E", rule_e, 2, "failed allocation leaves the map intact"),
+    Rule("C12.E", rule_e, 3, "failed allocation leaves the map intact"),
 ]
